@@ -275,9 +275,16 @@ class T:
             return UVal(z3.If(I.ctx.fn("u_truth", U, B)(x.t), c.t, self.EMPTY), "ChoiceMap")
         raise Unsupported(f"ChoiceMap.filter({x!r})")
 
+    def not_zero_length(self, t):
+        """values are not zero-length arrays (Choice.build maps those to the empty choice map; listed precondition)"""
+        self.c.assume(self.c.fn("shape_of", U, U)(t) != self.I.to_u((0,)))
+        self.c.assume(z3.Implies(z3.Not(self.is_Mask(t)), self.d_primal(t) == t))      # choice values carry no Diff leaves
+        _note("choice values are not zero-length arrays (Choice.build turns a shape-(0,) array into the empty map)")
+
     def chm_get_value(self, I, c):
         v = self.chm_value(c.t)
         self.c.assume(z3.Not(z3.And(self.is_None(v), self.is_Mask(v))))
+        self.not_zero_length(v)
         return UVal(v, "maybe")
 
     def chm_get_inner_map(self, I, c, addr):
@@ -326,6 +333,12 @@ class T:
             for x in o.fields.values():
                 if isinstance(x, UVal) and x.cls == "Selection":
                     self.sel_nf(x.t)
+        if o.cls.name == "Mask":
+            x = o.fields["value"]
+            if isinstance(x, UVal):          # Mask.__init__ asserts that a Mask never wraps a Mask
+                self.c.assume(z3.Not(self.is_Mask(x.t)))
+                self.c.assume(z3.Not(self.is_None(x.t)))
+                self.not_zero_length(x.t)
 
     def sel_invert(self, I, s):
         r = self.sel_not(s.t)
@@ -347,6 +360,8 @@ class Theory:
         self.t = t = T(I)
         I.T = t
         I.view_hook = t.view_hook
+        from . import dist
+        dist.install(I)
         I.abstract_classes = {
             "Trace": GF + ":Trace", "GenerativeFunction": GF + ":GenerativeFunction", "ChoiceMap": CM + ":ChoiceMap",
             "Selection": CM + ":Selection", "EditRequest": CONCEPTS + ":EditRequest",
